@@ -69,7 +69,9 @@ impl<'v> MutableSlots<'v> {
     }
 
     pub fn get_slot(&self, slot: ModuleSlotId) -> Option<Value<'v>> {
-        self.0.borrow()[slot.0 as usize]
+        // A name can be registered without its slot being allocated:
+        // the scope checker adds names before an error makes `eval_module` return early.
+        self.0.borrow().get(slot.0 as usize).copied().flatten()
     }
 
     pub fn set_slot(&self, slot: ModuleSlotId, value: Value<'v>) {
